@@ -48,6 +48,11 @@ def cases(tier, seed):
     for i in range(n):
         out.append({'name': 'core-%d' % i, 'kind': 'core',
                     'seed': [seed, 152, i]})
+    for n, nm in enumerate(drive.repo_inputs()):
+        if tier == 'quick' and n % 3 != 2:
+            continue
+        out.append({'name': 'repo-' + nm[6:-4], 'kind': 'repo', 'input': nm,
+                    'seed': [seed, 153, n]})
     return out
 
 
@@ -143,8 +148,12 @@ class Fold(object):
 
 def run_case(case):
     res = Result(case)
-    P, feats = build_problem(case)
-    key = {'axial': feats['axial'], 'gap': P['gap_model']}
+    if case['kind'] == 'repo':
+        P, feats = None, {'axial': 'repo', 'repo_input': case['input']}
+        key = {'axial': 'repo', 'gap': 'repo'}
+    else:
+        P, feats = build_problem(case)
+        key = {'axial': feats['axial'], 'gap': P['gap_model']}
     folds = {}
 
     def post(args, kwargs, r_, tok):
@@ -156,7 +165,12 @@ def run_case(case):
 
     try:
         with drive.scratch() as d, Hooks() as hk:
-            inp, r = drive.build(P, d, max_steps=MAX_STEPS)
+            if P is None:
+                inp, r = drive.build_repo_input(case['input'], d,
+                                                max_steps=MAX_STEPS)
+                res.tag('repo_input')
+            else:
+                inp, r = drive.build(P, d, max_steps=MAX_STEPS)
             hk.wrap(Assembly, 'calculate', post=post)
             drive.sweep(r)
             hk.detach()
@@ -210,7 +224,21 @@ def run_case(case):
                     interesting = True
                 if f.cool[0] > float(np.max(a.temp_coolant)) + 1e-9:
                     interesting = True
-            # ---- tables ----------------------------------------------------
+            # ---- tables (printed in the user's units) --------------------
+            from vmon.oracle import c17_units as U
+            un = inp.data['Setup'].get('Units', {})
+            ut = [k for k, v in U.TEMP_SPELL.items()
+                  if str(un.get('temperature', 'k')).lower() in v
+                  or str(un.get('temperature', 'k')).lower()
+                  == U.TEMP_NORMAL[k]][0]
+            ul = [k for k, v in U.LENGTH_SPELL.items()
+                  if str(un.get('length', 'm')).lower() in v][0]
+
+            def tT(x):
+                return U.temp_from_K(ut, float(x))
+
+            def tz(x):
+                return float(x) / U.LENGTH[ul]
             with drive.quiet():
                 ctab = dassh.table.CoolantTempTable().generate(r)
                 dtab = dassh.table.DuctTempTable().generate(r)
@@ -227,11 +255,11 @@ def run_case(case):
                 f = folds[id(a)]
                 bulk, pk_out, pk_tot, pk_ht = (float(x[4]), float(x[5]),
                                                float(x[6]), float(x[8]))
-                ok = (abs(bulk - a.avg_coolant_temp) < 0.006 and
-                      abs(pk_out - float(np.max(
+                ok = (abs(bulk - tT(a.avg_coolant_temp)) < 0.006 and
+                      abs(pk_out - tT(np.max(
                           a.active_region.temp['coolant_int']))) < 0.006 and
-                      abs(pk_tot - f.cool[0]) < 0.006 and
-                      any(abs(pk_ht - zz) < 0.006 for zz in f.cool[1]))
+                      abs(pk_tot - tT(f.cool[0])) < 0.006 and
+                      any(abs(pk_ht - tz(zz)) < 0.006 for zz in f.cool[1]))
                 res.check('K4_table_coolant_row', ok,
                           'coolant summary row %r disagrees with the final-'
                           'plane fields / folded peak (%.3f, %r)'
@@ -258,7 +286,7 @@ def run_case(case):
                     pk = float(x[-2])
                     k2 = dict(key, ducts_change=bool(n_last != f.nd))
                     res.check('K5_table_duct_row',
-                              abs(pk - f.duct[g][0]) < 0.006,
+                              abs(pk - tT(f.duct[g][0])) < 0.006,
                               'duct table row (duct %d of %d at the outlet) '
                               'shows peak %.2f, folded peak of that wall is '
                               '%.2f' % (dnum + 1, n_last, pk, f.duct[g][0]),
